@@ -109,9 +109,15 @@ pub fn compare_minima(rd: &RefDict, dump: &LatticeDump) -> Result<i64, String> {
     };
     for &i in &order {
         let nd = &dump.nodes[i];
-        let (_, _, _, wcost) = rd
+        let (_, el, er, wcost) = rd
             .entry(nd.lex_type, nd.word_id)
             .ok_or_else(|| format!("lattice node names a non-existent entry ({},{})", nd.lex_type, nd.word_id))?;
+        if (el, er) != (nd.left_id, nd.right_id) {
+            return Err(format!(
+                "node {nd:?} carries connection ids ({},{}) but its dictionary entry has ({el},{er}) (ids compared after undoing the id mapping)",
+                nd.left_id, nd.right_id
+            ));
+        }
         if nd.start_node >= nd.end_word {
             return Err(format!("lattice node with start_node {} >= end {}", nd.start_node, nd.end_word));
         }
@@ -239,7 +245,7 @@ impl Sub for LatticeCheck {
             max_chunks: 8,
             max_chars: 24,
             with_user: true,
-            with_mapping: false,
+            with_mapping: self.which == Which::Optimality,
             space_only_if_exclusive: true,
         };
         tok_case(p)
@@ -264,18 +270,39 @@ impl Sub for LatticeCheck {
         let rd = RefDict::new(&case.spec, user.unwrap_or(&[]));
         ctx.label(case.spec.conn.kind());
         ctx.label_if(user.is_some(), "user_lexicon");
+        ctx.label_if(case.mapping.is_some(), "mapped");
+        // old id of each new id (identity when unmapped)
+        let inv = |list: Option<&Vec<u16>>, n: usize| -> Vec<u16> {
+            let mut v: Vec<u16> = (0..n as u16).collect();
+            if let Some(l) = list {
+                for (i, &old) in l.iter().enumerate() {
+                    v[i + 1] = old;
+                }
+            }
+            v
+        };
+        let inv_l = inv(case.mapping.as_ref().map(|m| &m.0), rd.conn.num_left);
+        let inv_r = inv(case.mapping.as_ref().map(|m| &m.1), rd.conn.num_right);
         for o in &case.opts {
-            let dict = build_case_dict(&files, user, None, false)?;
+            let dict = build_case_dict(&files, user, case.mapping.as_ref(), o.max_grouping_len % 2 == 1)?;
             let tokenizer = make_tokenizer(dict, o.ignore_space, o.max_grouping_len)?;
             let mut worker = tokenizer.new_worker();
             for s in &case.sentences {
-                let (toks, dump) = guard(|| {
+                let (toks, mut dump) = guard(|| {
                     worker.reset_sentence(s);
                     worker.tokenize();
                     (tokens_of(&worker), lattice_dump(&worker))
                 })
                 .map_err(|p| format!("tokenize({s:?}, {o:?}): {p}"))?;
                 ctx.eval();
+                for n in &mut dump.nodes {
+                    let (l, r) = (usize::from(n.left_id), usize::from(n.right_id));
+                    if l >= inv_l.len() || r >= inv_r.len() {
+                        return Err(format!("sentence {s:?}: lattice node {n:?} has a connection id outside the connector"));
+                    }
+                    n.left_id = inv_l[l];
+                    n.right_id = inv_r[r];
+                }
                 let refl = rd.lattice(s, o.ignore_space, o.max_grouping_len);
                 if s.is_empty() {
                     if !toks.is_empty() {
